@@ -48,6 +48,26 @@ impl PV {
     }
 }
 
+impl PV {
+    fn to_value(&self) -> Value {
+        match self {
+            PV::Null => Value::Null,
+            PV::Bool(b) => Value::Bool(*b),
+            PV::Str(s) => Value::String(s.clone()),
+            PV::Num(s) => parse_json(s, 4).expect("pool numeral is JSON"),
+            PV::Arr(a) => Value::Array(a.iter().map(|e| e.to_value()).collect()),
+            PV::Obj(o) => Value::Object(o.iter().map(|(k, v)| (k.clone(), v.to_value())).collect()),
+        }
+    }
+    fn depth(&self) -> usize {
+        match self {
+            PV::Arr(a) => 1 + a.iter().map(|e| e.depth()).max().unwrap_or(0),
+            PV::Obj(o) => 1 + o.values().map(|e| e.depth()).max().unwrap_or(0),
+            _ => 0,
+        }
+    }
+}
+
 /// Exact decimal: value = (-1)^neg * 0.d1d2d3... * 10^exp, digits without
 /// leading/trailing zeros; zero has no digits.
 #[derive(Clone, Debug, PartialEq)]
@@ -254,8 +274,8 @@ fn six(rep: &mut Report, exprs: &[jmespath::Expression<'_>; 6], form: u8, x: &PV
     let doc = if literal {
         Value::Null
     } else {
-        let t = format!("{{\"l\":{},\"r\":{}}}", x.text(), y.text());
-        parse_json(&t, 64).expect("pool text is JSON")
+        // built node by node (no text in between: values may be nested deeper than a JSON reader accepts)
+        json!({"l": x.to_value(), "r": y.to_value()})
     };
     for (k, op) in OPS.iter().enumerate() {
         rep.evaluations += 1;
@@ -338,7 +358,7 @@ fn wide_and_deep_pool() -> Vec<PV> {
             v.push(PV::Obj(o3));
         }
     }
-    for &depth in &[3usize, 4, 5, 8, 16, 40] {
+    for &depth in &[3usize, 4, 5, 8, 16, 40, 120, 127, 128, 129, 130, 200, 300] {
         for leaf in ["1", "2"] {
             for shape in 0..3 {
                 let mut x = n(leaf);
@@ -412,7 +432,8 @@ pub fn run(args: &Args) {
                 continue;
             }
             // literal spellings of the largest values are long; one form in three
-            let forms: &[u8] = if (i + j) % 3 == 0 { &[0, 1] } else { &[0] };
+            // literal spellings only where a JSON reader would accept them (nesting) and one pair in three (length)
+            let forms: &[u8] = if (i + j) % 3 == 0 && wide[i].depth().max(wide[j].depth()) < 100 { &[0, 1] } else { &[0] };
             for &form in forms {
                 let (x, y) = (&wide[i], &wide[j]);
                 let xy = six(&mut rep, &exprs, form, x, y);
